@@ -13,6 +13,9 @@
 (*      through at least one whole wait slice since (so it has registered       *)
 (*      again after anybody else), yet the registration is missing or carries   *)
 (*      another coroutine's token  (Selector!TokenOfWaiter)                     *)
+(*      not_armed: same ground truth and same conditions, and the registration  *)
+(*      the kernel holds for the descriptor on the waiter's loop does not       *)
+(*      include read readiness: no event can ever wake the waiter               *)
 EXTENDS Naturals, Integers, Sequences, FiniteSets, TLC, Json, IOUtils
 
 Rec == ndJsonDeserialize(IOEnv.TRACE)
@@ -48,7 +51,7 @@ Step ==
             /\ waitsOn' = [t \in {} |-> 0] /\ readyFd' = {} /\ sawCb' = [t \in {} |-> 0] /\ sawTo' = [t \in {} |-> 0]
             /\ slices' = [t \in {} |-> 0] /\ lastParker' = [f \in {} |-> 0] /\ parkLoop' = [t \in {} |-> 0]
             /\ UNCHANGED nviol
-       [] ev \in {"epolls", "agent", "op_done", "lend"} -> UNCHANGED <<scen, nloops, want, waitsOn, readyFd, sawCb, sawTo, nviol, slices, lastParker, parkLoop>>
+       [] ev \in {"epolls", "agent", "op_done", "lend", "step_b", "step_e"} -> UNCHANGED <<scen, nloops, want, waitsOn, readyFd, sawCb, sawTo, nviol, slices, lastParker, parkLoop>>
        [] ev = "op" ->
             /\ want' = CASE r.op = "wait" -> [want EXCEPT ![r.loop][r.fd] = @ \cup {r.kind}]
                          [] r.op = "del" -> [want EXCEPT ![r.loop][r.fd] = @ \ KS(r.kinds)]
@@ -68,9 +71,12 @@ Step ==
             LET P == {t \in DOMAIN waitsOn : waitsOn[t] = r.fd}
                 bad == \E t \in P : /\ P = {t} /\ Get(lastParker, r.fd) = t /\ Get(slices, t) >= 1
                                      /\ ~\E i \in DOMAIN r.toks : r.toks[i].loop = Get(parkLoop, t) /\ r.toks[i].task = t
+                bad2 == \E t \in P : /\ P = {t} /\ Get(lastParker, r.fd) = t /\ Get(slices, t) >= 1
+                                      /\ \E i \in DOMAIN r.toks : r.toks[i].loop = Get(parkLoop, t) /\ ~r.toks[i].r
             IN /\ readyFd' = readyFd \cup {r.fd}
                /\ (bad => Viol("wrong_token", <<r.fd, P, r.toks>>))
-               /\ nviol' = nviol + Count(bad)
+               /\ (bad2 => Viol("not_armed", <<r.fd, P, r.toks>>))
+               /\ nviol' = nviol + Count(bad) + Count(bad2)
                /\ UNCHANGED <<scen, nloops, want, waitsOn, sawCb, sawTo, slices, lastParker, parkLoop>>
        [] ev = "wake" ->
             LET t == r.task f == Get(waitsOn, t)
